@@ -474,7 +474,7 @@ static inline bool parse_double_fast(int64_t mantissa, int64_t exponent, bool ne
  * 
  * Skips underscores if EDN_ENABLE_EXPERIMENTAL_EXTENSION is enabled.
  */
-static double parse_double_from_buffer(const char* start, const char* end) {
+static double parse_double_from_buffer(const char* start, const char* end, bool* out_of_memory) {
     const char* ptr = start;
     bool negative = false;
 
@@ -583,7 +583,9 @@ static double parse_double_from_buffer(const char* start, const char* end) {
     if (len >= sizeof(stack_buffer)) {
         buffer = malloc(len + 1);
         if (buffer == NULL) {
-            return NAN;
+            /* Not a number the document denotes: report the failure instead of a value. */
+            *out_of_memory = true;
+            return 0.0;
         }
     }
 
@@ -975,8 +977,14 @@ edn_value_t* edn_read_number(edn_parser_t* parser) {
         set_bigint(value, digits_start, digits_end - digits_start, negative, radix);
     } else if (has_decimal_point || has_exponent) {
         /* Double */
+        bool out_of_memory = false;
         value->type = EDN_TYPE_FLOAT;
-        value->as.floating = parse_double_from_buffer(start, digits_end);
+        value->as.floating = parse_double_from_buffer(start, digits_end, &out_of_memory);
+        if (out_of_memory) {
+            parser->error = EDN_ERROR_OUT_OF_MEMORY;
+            parser->error_message = "Out of memory while converting number";
+            return NULL;
+        }
     } else {
         /* Try to fit in int64 */
         int64_t num;
